@@ -3,14 +3,16 @@
     (no Extract Constant, no mapping to OCaml int). *)
 Require Import ExtrOcamlBasic.
 From Coq Require Import NArith Decimal DecimalN.
-From MM Require Import Base.Prelude Base.Families Sketch.SketchModel Unsync.UModel.
+From MM Require Import Base.Prelude Base.Families Sketch.SketchModel Unsync.UModel Sync.SModel.
 
 Definition sk_table_list (sk : sketch) : list (N * N) := map_to_list (sk_table sk).
 Definition u_map_list (s : ustate) : list (N * uentry) := map_to_list (u_map s).
+Definition s_map_list (s : sstate) : list (N * N) := map_to_list (s_map s).
 
 Extraction Language OCaml.
 Extraction "model.ml"
   N.of_uint N.to_uint N.eqb N.ltb N.compare
   hasher_of weigher_of pred_of
   sk_empty sk_step sk_table_list sk_sample sk_mask sk_tlen sk_size
-  urun_init ustep u_map_list.
+  urun_init ustep u_map_list
+  srun_init sstep s_map_list get_ve get_info live_ves.
